@@ -198,7 +198,7 @@ func (node *DataMessage) SessionID() int {
 // SystemBytes returns the system bytes of the SECS-II message.
 // If the system bytes was not set, it will return []byte{0, 0, 0, 0}.
 func (node *DataMessage) SystemBytes() []byte {
-	return node.systemBytes
+	return append([]byte{}, node.systemBytes...)
 }
 
 // SetSessionIDAndSystemBytes sets session id and system bytes to the message.
